@@ -30,11 +30,14 @@ claim("C05", PR, TECH_PR,
       "with digest H(base64url text), _sd_alg sha-256 (C05_shape) — and no digest occurs twice (C05_digests_unique). The run re-derives payload "
       "and disclosures from the logged draws and checks marking, placement, recomputation and the structural leak rule on the implementation.",
       NOTE_PR % ("C05", "premises: member names without a leading '[' (the property's quantifier), injective digest oracle, pairwise distinct 22-character ASCII salts"))
-claim("C06", TV, TECH_TV,
-      "Holder model compared with the implementation on generated selections; the extracted specification `designated` decides which "
-      "disclosures a type-consistent selection must carry; the weak form is checked for arbitrary selection JSON. (Proof of the holder walk "
-      "against `designated` is in progress: Proofs/WalkSel.v.)",
-      INTERIM % "C06")
+claim("C06", PR, TECH_PR,
+      "Theorems: for every type-consistent selection the holder's walk returns exactly the raw texts of the disclosures the specification "
+      "`designated` lists — each once, only hidden claims' disclosures, never a decoy, descending only through selected claims "
+      "(C06_walk_designated, C06_exactly_selected, C06_designated_positions); for ARBITRARY selection JSON whatever is returned consists of "
+      "genuine disclosures only, each at most once, each with all its hidden ancestors (C06_weak); create_presentation never panics. The run "
+      "compares the holder with the model and with the extracted `designated`, checks byte-identity of the JWT, the compact shape and the "
+      "KB-JWT-iff-requested rule on the implementation.",
+      NOTE_PR % ("C06", "premises: the digest map is genuine for the credential (discharged from the codec law and an injective digest oracle in Proofs/UnpackView, WalkSel.genuine_of_disclosures)"))
 claim("C09", PR, TECH_PR,
       "Theorem C09_window: for every input, format, disclosure list and key-binding setting, acceptance implies a numeric exp e with "
       "now <= e + 60 and, when the signed payload carries a numeric nbf n, n <= now + 60 (absent / null / string / negative exp is never "
